@@ -182,7 +182,7 @@ def run(ctx):
     ALPHA = [ord('a'), ord('.'), ord(' '), ord('"'), 0xE9 - 256, -128]
     badq = []
     nq = 0
-    for n in (0, 1, 2, 3):
+    for n in range(0, ctx.deep(3, 4) + 1):
         for t in itertools.product(ALPHA, repeat=n):
             H = StrHooks()
             H.entry = 'quote_need'
@@ -201,7 +201,7 @@ def run(ctx):
             nq += 1
             if got != [want]:
                 badq.append((bytes(u_), got, want))
-    r1.check(nq == 259 and not badq, 'quote_need=documented-predicate(empty,non-atom,>=128,leading/trailing/doubled-dot)', 'quote.c:quote_need',
+    r1.check(nq == ctx.deep(259, 1555) and not badq, 'quote_need=documented-predicate(empty,non-atom,>=128,leading/trailing/doubled-dot)', 'quote.c:quote_need',
              'deviations (string, result, documented): %s' % badq[:4])
     smtpd_special = {ord(c) for c in '<> "\\@:'}
     r1.check(not (unq & smtpd_special), 'unquoted-bytes-are-not-special-to-addrparse', 'quote.c/qmail-smtpd.c', 'left unquoted although special to addrparse: %s' % [chr(b) for b in sorted(unq & smtpd_special)])
